@@ -56,6 +56,10 @@ PREFIXES = [
     [("-j", '{"a":[1],"b":"x"}'), ("-g", "a")],            # TOP is a member of PREV (shared)
     [("-j", "[1,2,3]"), ("-q", "MQ")],                     # arr, string
 ]
+SMALL = [("-O",), ("-A",), ("-X",), ("-E",), ("-Q",), ("-U",), ("-c",), ("-l",), ("-e",), ("-a",), ("-x",), ("-Y",),
+         ("-M", "1"), ("-j", "1"), ("-j", "[1,2,3]"), ("-j", '{"a":1}'), ("-q", "MQ"), ("-y",), ("-o", "-"), ("-f", "-"),
+         ("-u", "-"), ("-t", "1"), ("-t", "-1"), ("-i", "1"), ("-d", "a"), ("-d", "-1"), ("-g", "a"), ("-g", "-1"),
+         ("-s", "a"), ("-s", "0")]
 OBSERVER = [("-Q",), ("-o", "-")]                          # prints the whole stack
 USAGE = [[("-j", "bad")], [("-j", "1"), ("-o", "-"), ("-M", "x")], [("-j", "[1]"), ("-t", "x")],
          [("-j", "[]"), ("-j", "1"), ("-i", "x")], [("-j", "{")], [("-o", "-"), ("-j", "[1,")]]
@@ -77,7 +81,7 @@ def gen(tier, seed):
         progs.append(tuple(p))
         tags.append(tag)
 
-    alpha = ALPHABET if tier == "quick" else ALPHABET
+    alpha = ALPHABET
     for pre in PREFIXES:
         add(pre + OBSERVER, "exhaustive len<=2")
         for a in alpha:
@@ -92,13 +96,17 @@ def gen(tier, seed):
         for b in alpha:
             add([a, b], "empty-stack len<=2")
     if tier == "thorough":
-        small = [a for a in ALPHABET if a[0] not in ("-j", "-q") or a[1] in ("1", '"a"', "[1,2,3]", '{"a":1}', "MQ")]
-        small = [a for a in small if not (a[0] in "-O-A-S-I-R-N-T-F-B-0" and a[0] not in ("-O", "-A"))]
-        for pre in PREFIXES[:3]:
-            for a in small:
-                for b in small:
-                    for c in small:
-                        add(pre + [a, b, c] + OBSERVER, "exhaustive len 3 (reduced alphabet)")
+        for pre in PREFIXES:
+            for a in SMALL:
+                for b in SMALL:
+                    for c in SMALL:
+                        add(pre + [a, b, c] + OBSERVER, "exhaustive len 3 (30-instance alphabet)")
+    # values that contain themselves (-a after -M): serialization / copy / comparison of a cycle
+    cyc = [("-j", "[]"), ("-j", "[]"), ("-a",), ("-M", "1"), ("-a",)]
+    for tail in ([], [("-o", "-")], [("-c",)], [("-Q",)], [("-Y",)], [("-f", "-")], [("-l",), ("-o", "-")],
+                 [("-E",)], [("-U",), ("-c",), ("-M", "1"), ("-E",)], [("-g", "0"), ("-g", "0"), ("-A",)],
+                 [("-e",), ("-Q",), ("-o", "-")], [("-o", "@F")]):
+        add(cyc + tail, "cyclic values")
     for u in USAGE:
         add(u, "usage errors")
     # the manual's own examples (with constants for $jwe etc.)
@@ -274,12 +282,18 @@ def diagnose(prog, b, m, both):
     ac = argclass(o)
     if kb.startswith("CRASH"):
         kind = "crash"
-        what = re.sub(r"[^A-Za-z0-9-]+", "-", kb[6:60]).strip("-")
+        mm = re.search(r"stack-overflow|heap-buffer-overflow|stack-buffer-overflow|heap-use-after-free|double-free|"
+                       r"SEGV|UBSan|TIMEOUT|SIGNAL \d+", kb)
+        what = mm.group(0).replace(" ", "") if mm else re.sub(r"[^A-Za-z0-9-]+", "-", kb[6:40]).strip("-")
         return ("fmt:%s:crash:%s" % (o[0], what), "option %d (%s) crashes the program: %s" % (k, " ".join(o), kb),
                 kind, tuple(o))
     bs = int(kb.split(":")[0])
     ms = statuses(km)
-    if bs in ms:
+    if bs in ms and bs == k:
+        kind = "partial-output-before-failure"
+        text = ("option %d (%s) fails, as it may, but has already written bytes (stdout or its file) before failing; "
+                "the manual allows nothing to be printed by a failing option" % (k, " ".join(o)))
+    elif bs in ms:
         kind = "output-differs"
         text = "after option %d (%s) the values on the stack / the bytes written differ from what the manual defines" % (k, " ".join(o))
     elif bs == k and all(x == 0 or x > k for x in ms):
@@ -438,7 +452,9 @@ def correspond(ctx):
             "first_disagreements": first[:10],
             "exhaustive_subspaces": [
                 "all programs of length <= 2 over the %d-instance option alphabet (every option letter of the manual) after each of %d two-value prefixes, observed with -Q -o-" % (na, len(PREFIXES)),
-                "all programs of length <= 2 over the same alphabet from the empty stack"],
+                "all programs of length <= 2 over the same alphabet from the empty stack"]
+            + (["all programs of length 3 over a %d-instance alphabet after each of the %d prefixes" % (len(SMALL), len(PREFIXES))]
+               if ctx["tier"] == "thorough" else []),
             "exhaustive": False,
         }
     finally:
